@@ -53,6 +53,14 @@ pub enum Op {
     /// adversarial requests that must be refused and leave nothing behind
     BadCreate { n: usize, kind: u8, u: Uuid, name: String },
     BadModify { n: usize, kind: u8, u: Uuid },
+    /// marker: from here on (until `heal`) the generator schedules no replication with node x
+    Partition { x: usize, heal: bool },
+    /// replace a person's mail values (several addresses sharing substrings)
+    SetMail { n: usize, u: Uuid, mails: Vec<String> },
+    /// OAuth2 client and its reference-valued maps
+    CreateOauth2 { n: usize, u: Uuid, name: String },
+    ScopeMap { n: usize, rs: Uuid, g: Uuid, del: bool },
+    ClaimMap { n: usize, rs: Uuid, claim: String, g: Uuid, del: bool },
 }
 
 impl Op {
@@ -60,6 +68,11 @@ impl Op {
         match self {
             Op::CreatePerson { .. } => "CreatePerson",
             Op::CreateGroup { .. } => "CreateGroup",
+            Op::Partition { .. } => "Partition",
+            Op::SetMail { .. } => "SetMail",
+            Op::CreateOauth2 { .. } => "CreateOauth2",
+            Op::ScopeMap { .. } => "ScopeMap",
+            Op::ClaimMap { .. } => "ClaimMap",
             Op::CreateDyn { .. } => "CreateDyn",
             Op::SetDynFilter { .. } => "SetDynFilter",
             Op::Rename { .. } => "Rename",
@@ -140,6 +153,10 @@ pub struct Cluster {
     recycled_ever: BTreeSet<Uuid>,
     revived_ever: BTreeSet<Uuid>,
     baseline_system: BTreeSet<Uuid>,
+    /// "lag" runs, half of them (decided by the seed): the interval tasks run as on a real server,
+    /// i.e. after every clock advance of at least ten minutes each running node performs two
+    /// purge cycles (purge_recycled, purge_tombstones; each its own write transaction).
+    periodic_purge: bool,
     pub out: Outcome,
     step: usize,
     kinds: Vec<u64>,
@@ -184,6 +201,24 @@ fn group(u: Uuid, name: &str, members: &[Uuid]) -> Entry<EntryInit, EntryNew> {
     e
 }
 
+fn oauth2_client(u: Uuid, name: &str) -> Entry<EntryInit, EntryNew> {
+    entry_init!(
+        (Attribute::Class, EntryClass::Object.to_value()),
+        (Attribute::Class, EntryClass::Account.to_value()),
+        (Attribute::Class, EntryClass::OAuth2ResourceServer.to_value()),
+        (Attribute::Class, EntryClass::OAuth2ResourceServerPublic.to_value()),
+        (Attribute::Name, Value::new_iname(name)),
+        (Attribute::Uuid, Value::Uuid(u)),
+        (Attribute::DisplayName, Value::new_utf8s(name)),
+        (Attribute::OAuth2RsOriginLanding, Value::new_url_s("https://rs.example.com/").expect("url")),
+        (Attribute::OAuth2RsOrigin, Value::new_url_s("https://rs.example.com/cb").expect("url"))
+    )
+}
+
+fn sset(v: &[&str]) -> BTreeSet<String> {
+    v.iter().map(|s| s.to_string()).collect()
+}
+
 pub fn dyn_filter_json(pat: &str) -> String {
     // members: persons whose name starts with `pat` (Stw is not in ProtoFilter; use Sub)
     serde_json::to_string(&ProtoFilter::And(vec![
@@ -219,6 +254,7 @@ impl Cluster {
             recycled_ever: BTreeSet::new(),
             revived_ever: BTreeSet::new(),
             baseline_system: BTreeSet::new(),
+            periodic_purge: cfg.focus == "lag" && Rng::stream(seed, "periodic-purge").chance(1, 2),
             out: Outcome::default(),
             step: 0,
             kinds: vec![],
@@ -599,6 +635,34 @@ impl Cluster {
             Op::AddMember { n, g, m } if n < nn && self.up(n) => self.write_op(n, |w| w.internal_modify_uuid(g, &ModifyList::new_append(Attribute::Member, Value::Refer(m)))).map(|_| (Some(n), "ok".into())),
             Op::RemMember { n, g, m } if n < nn && self.up(n) => self.write_op(n, |w| w.internal_modify_uuid(g, &ModifyList::new_remove(Attribute::Member, PartialValue::Refer(m)))).map(|_| (Some(n), "ok".into())),
             Op::SetManager { n, u, mgr } if n < nn && self.up(n) => self.write_op(n, |w| w.internal_modify_uuid(u, &ModifyList::new_purge_and_set(Attribute::EntryManagedBy, Value::Refer(mgr)))).map(|_| (Some(n), "ok".into())),
+            Op::Partition { heal, .. } => {
+                self.out.fault(if heal { "partition_heal" } else { "partition" });
+                Ok((None, "ok".into()))
+            }
+            Op::SetMail { n, u, mails } if n < nn && self.up(n) => {
+                let mut ml = vec![Modify::Purged(Attribute::Mail)];
+                for (i, m) in mails.iter().enumerate() {
+                    ml.push(Modify::Present(Attribute::Mail, Value::EmailAddress(m.clone(), i == 0)));
+                }
+                self.write_op(n, |w| w.internal_modify_uuid(u, &ModifyList::new_list(ml))).map(|_| (Some(n), "ok".into()))
+            }
+            Op::CreateOauth2 { n, u, name } if n < nn && self.up(n) => self.write_op(n, |w| w.internal_create(vec![oauth2_client(u, &name)])).map(|_| (Some(n), "ok".into())),
+            Op::ScopeMap { n, rs, g, del } if n < nn && self.up(n) => {
+                let ml = if del {
+                    ModifyList::new_remove(Attribute::OAuth2RsScopeMap, PartialValue::Refer(g))
+                } else {
+                    ModifyList::new_append(Attribute::OAuth2RsScopeMap, Value::new_oauthscopemap(g, sset(&["read"])).expect("scopemap"))
+                };
+                self.write_op(n, |w| w.internal_modify_uuid(rs, &ml)).map(|_| (Some(n), "ok".into()))
+            }
+            Op::ClaimMap { n, rs, claim, g, del } if n < nn && self.up(n) => {
+                let ml = if del {
+                    ModifyList::new_remove(Attribute::OAuth2RsClaimMap, PartialValue::OauthClaim(claim.clone(), g))
+                } else {
+                    ModifyList::new_append(Attribute::OAuth2RsClaimMap, Value::new_oauthclaimmap(claim.clone(), g, sset(&["v"])).expect("claimmap"))
+                };
+                self.write_op(n, |w| w.internal_modify_uuid(rs, &ml)).map(|_| (Some(n), "ok".into()))
+            }
             Op::Delete { n, u } if n < nn && self.up(n) => self.write_op(n, |w| w.internal_delete_uuid(u)).map(|_| (Some(n), "ok".into())),
             Op::Revive { n, u } if n < nn && self.up(n) => {
                 let r = self.write_op(n, |w| {
@@ -630,6 +694,21 @@ impl Cluster {
             Op::Advance { secs } => {
                 self.t += secs;
                 self.out.sim_secs += secs as f64;
+                if self.periodic_purge && secs >= 600 {
+                    self.after = "purge";
+                    for n in 0..nn {
+                        if !self.up(n) {
+                            continue;
+                        }
+                        for _cycle in 0..2 {
+                            self.t += 1;
+                            let _ = self.write_op(n, |w| w.purge_recycled());
+                            let _ = self.write_op(n, |w| w.purge_tombstones());
+                            self.out.probe("interval purge cycle");
+                        }
+                        self.check_node(n);
+                    }
+                }
                 Ok((None, "ok".into()))
             }
             Op::Skew { n, secs } if n < nn => {
@@ -702,6 +781,15 @@ impl Cluster {
                 (n, format!("err:{e:?}"))
             }
         };
+        if rs == "ok" {
+            match op {
+                Op::SetMail { mails, .. } if mails.len() > 1 => self.out.probe("several mail values set on one entry"),
+                Op::CreateOauth2 { .. } => self.out.probe("oauth2 client created"),
+                Op::ScopeMap { del: false, .. } => self.out.probe("oauth2 scope map set"),
+                Op::ClaimMap { del: false, .. } => self.out.probe("oauth2 claim map set"),
+                _ => {}
+            }
+        }
         self.out.chain(fnv64(rs.as_bytes()));
         self.kinds.push(fnv64(op.kind().as_bytes()) ^ fnv64(rs.split(':').next().unwrap_or("").as_bytes()));
         if let Some(n) = touched {
@@ -1026,20 +1114,28 @@ pub struct Weights {
     pub reindex: u32,
     pub manager: u32,
     pub abandon: u32,
+    /// mail values and OAuth2 clients with scope/claim maps (0 = the draw sequence of the other
+    /// kinds is unchanged)
+    pub extra: u32,
 }
 
 pub fn generate(property: &str, seed: u64, cfg: &Cfg, w: &Weights, n_events: usize, big_time: bool) -> Plan {
     let mut g = Rng::stream(seed, "workload");
     let nn = cfg.nodes;
-    let names: Vec<String> = (0..6).map(|i| format!("n{}{}", ["al", "bo", "cy", "di", "ed", "fy"][i], i)).collect();
-    let persons: Vec<Uuid> = (0..8).map(|i| uuid_for(1, i)).collect();
-    let groups: Vec<Uuid> = (0..8).map(|i| uuid_for(2, i)).collect();
+    // "unique" runs draw from a tiny pool so that uuid and name clashes (in one request, across
+    // transactions, across replicas, and several at once) are the norm rather than the exception
+    let (n_names, n_ent): (usize, u64) = if cfg.focus == "unique" { (3, 3) } else { (6, 8) };
+    let names: Vec<String> = (0..n_names).map(|i| format!("n{}{}", ["al", "bo", "cy", "di", "ed", "fy"][i], i)).collect();
+    let persons: Vec<Uuid> = (0..n_ent).map(|i| uuid_for(1, i)).collect();
+    let groups: Vec<Uuid> = (0..n_ent).map(|i| uuid_for(2, i)).collect();
     let dyns: Vec<Uuid> = (0..2).map(|i| uuid_for(3, i)).collect();
     let mut created: Vec<Uuid> = vec![];
     let mut created_groups: Vec<Uuid> = vec![];
     let mut deleted: Vec<Uuid> = vec![];
     let mut evs: Vec<J> = vec![];
-    let weights = [w.create, w.rename, w.attr, w.member, w.delete, w.revive, w.purge, w.domain, w.repl, w.advance, w.skew, w.crash, w.bad, w.dynf, w.reindex, w.manager, w.abandon];
+    let weights = [w.create, w.rename, w.attr, w.member, w.delete, w.revive, w.purge, w.domain, w.repl, w.advance, w.skew, w.crash, w.bad, w.dynf, w.reindex, w.manager, w.abandon, w.extra];
+    let clients: Vec<Uuid> = (0..2).map(|i| uuid_for(5, i)).collect();
+    let mut created_clients: Vec<Uuid> = vec![];
     let anyof = |g: &mut Rng, a: &Vec<Uuid>, b: &Vec<Uuid>| -> Uuid {
         if !a.is_empty() && g.chance(4, 5) {
             *g.pick(a)
@@ -1050,7 +1146,29 @@ pub fn generate(property: &str, seed: u64, cfg: &Cfg, w: &Weights, n_events: usi
     let all: Vec<Uuid> = persons.iter().chain(groups.iter()).cloned().collect();
     let mut id = 0u64;
     let mut fresh = 0u64;
+    // "lag" runs: in half of them one node is partitioned from the others for a long stretch of
+    // the run (drawn from its own stream so that the other draws are unchanged), then healed.
+    let partition: Option<(usize, usize, usize)> = {
+        let mut p = Rng::stream(seed, "partition");
+        if cfg.focus == "lag" && nn >= 2 && p.chance(1, 2) {
+            let from = (n_events as u64 * (10 + p.below(30)) / 100) as usize;
+            let to = from + (n_events as u64 * (30 + p.below(40)) / 100) as usize;
+            Some((p.below(nn as u64) as usize, from, to))
+        } else {
+            None
+        }
+    };
+    let mut part_state = 0u8;
     while evs.len() < n_events {
+        if let Some((x, from, to)) = partition {
+            if (part_state == 0 && evs.len() >= from) || (part_state == 1 && evs.len() >= to) {
+                id += 1;
+                let mut v = serde_json::to_value(&Op::Partition { x, heal: part_state == 1 }).expect("json");
+                v["id"] = json!(id);
+                evs.push(v);
+                part_state += 1;
+            }
+        }
         let n = g.below(nn as u64) as usize;
         let op = match g.pick_weighted(&weights) {
             0 => {
@@ -1123,6 +1241,12 @@ pub fn generate(property: &str, seed: u64, cfg: &Cfg, w: &Weights, n_events: usi
                 if s == c {
                     s = (s + 1) % nn;
                 }
+                if let Some((x, from, to)) = partition {
+                    // partition: no link to or from the isolated node is scheduled inside the window
+                    if (c == x || s == x) && evs.len() >= from && evs.len() < to {
+                        continue;
+                    }
+                }
                 match g.below(if cfg.faults { 12 } else { 9 }) {
                     0..=2 => Op::Pull { c, s },
                     3 | 4 => Op::ReplBegin { c, s },
@@ -1156,7 +1280,43 @@ pub fn generate(property: &str, seed: u64, cfg: &Cfg, w: &Weights, n_events: usi
             13 => Op::SetDynFilter { n, u: *g.pick(&dyns), pat: g.pick(&["n", "na", "nb", "nc", "x"]).to_string() },
             14 => Op::Reindex { n },
             15 => Op::SetManager { n, u: anyof(&mut g, &created_groups, &groups), mgr: anyof(&mut g, &created, &all) },
-            _ => Op::Abandon { n, u: *g.pick(&persons), name: g.pick(&names).clone() },
+            16 => Op::Abandon { n, u: *g.pick(&persons), name: g.pick(&names).clone() },
+            _ => match g.below(10) {
+                0..=3 => {
+                    // 0-3 addresses of one owner tag, sharing local part and domain substrings;
+                    // rarely an address that another person may hold too (uniqueness)
+                    let tag = g.below(8);
+                    let pool = [format!("p{tag}@example.com"), format!("p{tag}.alias@example.com"), format!("p{tag}@corp.example"), "shared@example.com".to_string()];
+                    let mut mails = vec![];
+                    for (i, m) in pool.iter().enumerate() {
+                        if g.chance(if i == 3 { 1 } else { 5 }, 10) {
+                            mails.push(m.clone());
+                        }
+                    }
+                    Op::SetMail { n, u: anyof(&mut g, &created, &persons), mails }
+                }
+                4 | 5 => {
+                    let u = *g.pick(&clients);
+                    created_clients.push(u);
+                    Op::CreateOauth2 { n, u, name: format!("rs{}", g.below(2)) }
+                }
+                6 | 7 => Op::ScopeMap { n, rs: anyof(&mut g, &created_clients, &clients), g: anyof(&mut g, &created_groups, &all), del: g.chance(1, 4) },
+                _ => {
+                    let rs = anyof(&mut g, &created_clients, &clients);
+                    let gr = anyof(&mut g, &created_groups, &all);
+                    let ci = g.below(3) as usize;
+                    let claims = ["ca", "cb", "cc"];
+                    let del = g.chance(1, 5);
+                    if !del && g.chance(1, 2) {
+                        // the same group under a second claim name of the same client
+                        id += 1;
+                        let mut v = serde_json::to_value(&Op::ClaimMap { n, rs, claim: claims[(ci + 1) % 3].to_string(), g: gr, del: false }).expect("json");
+                        v["id"] = json!(id);
+                        evs.push(v);
+                    }
+                    Op::ClaimMap { n, rs, claim: claims[ci].to_string(), g: gr, del }
+                }
+            },
         };
         id += 1;
         let mut v = serde_json::to_value(&op).expect("json");
@@ -1209,7 +1369,7 @@ pub struct ClusterScenario {
 const ALL_STEP: [&str; 9] = ["C03", "C07", "C15", "C16", "C17", "C18", "C19", "C20", "C22"];
 
 fn w_default() -> Weights {
-    Weights { create: 14, rename: 6, attr: 8, member: 10, delete: 6, revive: 3, purge: 1, domain: 0, repl: 22, advance: 8, skew: 0, crash: 0, bad: 0, dynf: 1, reindex: 0, manager: 2, abandon: 0 }
+    Weights { create: 14, rename: 6, attr: 8, member: 10, delete: 6, revive: 3, purge: 1, domain: 0, repl: 22, advance: 8, skew: 0, crash: 0, bad: 0, dynf: 1, reindex: 0, manager: 2, abandon: 0, extra: 0 }
 }
 
 impl Scenario for ClusterScenario {
@@ -1302,6 +1462,44 @@ pub fn scenarios() -> Vec<Box<dyn Scenario>> {
     let dir = |id: &'static str, rule: &'static str, quick: u64| -> Box<dyn Scenario> {
         Box::new(ClusterScenario { id, enabled: vec![id], quick_runs: quick, thorough_runs: 30_000, rule, mk: mk_dir })
     };
+    // Same, and in half of the runs also mail values (multi-valued, unique, substring-indexed)
+    // and OAuth2 clients with scope and claim maps (reference-valued maps keyed by group).
+    fn mk_dir_x(k: &mut Rng, tier: Tier) -> (Cfg, Weights, usize, bool) {
+        let (cfg, mut w, n, big) = mk_dir(k, tier);
+        if k.chance(1, 2) {
+            w.extra = 12;
+        }
+        (cfg, w, n, big)
+    }
+    // C16: reference-bearing entries dominate; deletes of referenced entries are frequent.
+    fn mk_dir_ref(k: &mut Rng, tier: Tier) -> (Cfg, Weights, usize, bool) {
+        let (cfg, mut w, n, big) = mk_dir(k, tier);
+        if k.chance(2, 3) {
+            w.extra = 30;
+            w.delete = 10;
+            w.manager = 5;
+        }
+        (cfg, w, n, big)
+    }
+    // C19: half of the runs draw names and uuids from a pool of three, on 2-3 replicas.
+    fn mk_dir_uniq(k: &mut Rng, tier: Tier) -> (Cfg, Weights, usize, bool) {
+        let (mut cfg, mut w, n, big) = mk_dir_x(k, tier);
+        if k.chance(1, 2) {
+            cfg.focus = "unique".into();
+            w.create = 24;
+            w.rename = 10;
+            w.delete = 3;
+            if cfg.nodes == 1 {
+                cfg.nodes = 2;
+                w.repl = 22;
+                w.domain = 0;
+            }
+        }
+        (cfg, w, n, big)
+    }
+    let dirx = |id: &'static str, rule: &'static str, quick: u64| -> Box<dyn Scenario> {
+        Box::new(ClusterScenario { id, enabled: vec![id], quick_runs: quick, thorough_runs: 30_000, rule, mk: mk_dir_x })
+    };
     // C07: adversarial clocks (repeats, regressions, jumps), abandoned transactions, restarts.
     v.push(Box::new(ClusterScenario {
         id: "C07",
@@ -1353,9 +1551,12 @@ pub fn scenarios() -> Vec<Box<dyn Scenario>> {
         rule: "Monitor on every supplier step of lag-heavy histories (trimming, lag beyond the window, refresh): the reply (supply ranges / no changes / refresh / refuse) is compared with an independent decision function written from the property statement, evaluated on the consumer's ranges and the supplier's trimmed ranges.",
         mk: mk_lag,
     }));
-    v.push(dir("C03", "Random directory histories (renames, recycle/revive, purge, reaping, replication applies incl. uuid-changing conflicts, reindex, restart, small ARC caches); after every commit on the touched node: server verify(), index tables == keys recomputed from stored entries (two-sided), lookup tables and name resolution == scan, indexed search == scan.", 240));
-    v.push(dir("C15", "Random directory histories with adversarial (ill-typed, missing-must, disallowed-attribute, unknown-class, multi-value) creates and modifies and replicated merges; after every commit each live entry is checked against the schema dumped from the same transaction; refused operations must leave the database digest unchanged.", 240));
-    v.push(dir("C16", "Random histories over reference-bearing entries (members, entry managers), deletes, revives, purges, replicated conflicts; after every commit every reference-typed attribute of every live entry must point at a live entry on that node.", 240));
+    v.push(dirx("C03", "Random directory histories (renames, mail value sets sharing substrings, OAuth2 clients, recycle/revive, purge, reaping, replication applies incl. uuid-changing conflicts, reindex, restart, small ARC caches); after every commit on the touched node: server verify(), index tables == keys recomputed from stored entries (two-sided), lookup tables and name resolution == scan, indexed search == scan.", 240));
+    v.push(dirx("C15","Random directory histories with adversarial (ill-typed, missing-must, disallowed-attribute, unknown-class, multi-value) creates and modifies and replicated merges; after every commit each live entry is checked against the schema dumped from the same transaction; refused operations must leave the database digest unchanged.", 240));
+    let dirref = |id: &'static str, rule: &'static str, quick: u64| -> Box<dyn Scenario> {
+        Box::new(ClusterScenario { id, enabled: vec![id], quick_runs: quick, thorough_runs: 30_000, rule, mk: mk_dir_ref })
+    };
+    v.push(dirref("C16","Random histories over reference-bearing entries (members, entry managers, OAuth2 scope maps and claim maps naming one group under several claims), deletes, revives, purges, replicated conflicts; after every commit every reference-typed attribute of every live entry must point at a live entry on that node.", 240));
     fn mk_graph(k: &mut Rng, tier: Tier) -> (Cfg, Weights, usize, bool) {
         let nodes = if k.chance(2, 3) { 1 } else { 2 };
         let cfg = Cfg { nodes, file_backed: false, arc: None, focus: "graph".into(), auto_refresh: true, quiesce: true, faults: false, tick: true };
@@ -1373,7 +1574,10 @@ pub fn scenarios() -> Vec<Box<dyn Scenario>> {
     }
     v.push(Box::new(ClusterScenario { id: "C17", enabled: vec!["C17"], quick_runs: 320, thorough_runs: 40_000, rule: "Random group graphs up to 8 groups (cycles, self-membership, chains into cycles, dyngroups) built and edited by member add/remove (groups nested in groups most of the time), group delete/revive and replicated membership changes; after every commit memberof/directmemberof are recomputed by breadth-first closure in the harness and compared exactly.", mk: mk_graph }));
     v.push(dir("C18", "Dynamic groups with random filters, candidate create/rename/delete/revive, filter edits, replication, restart; after every commit dynmember == harness evaluation of the group's filter over the live entries of that node.", 240));
-    v.push(dir("C19", "Creates and renames from a tiny name/uuid pool on 1–3 replicas with random replication schedules; after every commit no two live entries share a uuid or a unique attribute value.", 240));
+    let diruniq = |id: &'static str, rule: &'static str, quick: u64| -> Box<dyn Scenario> {
+        Box::new(ClusterScenario { id, enabled: vec![id], quick_runs: quick, thorough_runs: 30_000, rule, mk: mk_dir_uniq })
+    };
+    v.push(diruniq("C19","Creates, renames and mail changes from a tiny name/uuid/address pool on 1–3 replicas with random replication schedules; after every commit no two live entries share a uuid or a unique attribute value.", 240));
     fn mk_single(k: &mut Rng, tier: Tier) -> (Cfg, Weights, usize, bool) {
         let file_backed = k.chance(1, 2);
         let arc = if k.chance(1, 3) { Some(*k.pick(&[4usize, 16, 64])) } else { None };
